@@ -151,7 +151,7 @@ func (w *world) attempt(cs *Case, data [][]byte) *Result {
 	id := fmt.Sprint(cs.ID)
 	sc := &script{}
 	for i, rd := range cs.Rounds {
-		sc.rounds = append(sc.rounds, round{Data: data[i], Segs: rd.Segs, End: rd.End, Hold: rd.Hold})
+		sc.rounds = append(sc.rounds, round{Data: data[i], Segs: rd.Segs, End: rd.End, Hold: rd.Hold, Pause: rd.Pause})
 	}
 	w.peer.scripts.Store(id, sc)
 	defer w.peer.scripts.Delete(id)
@@ -229,6 +229,9 @@ func (w *world) attempt(cs *Case, data [][]byte) *Result {
 		}
 		if cs.Method == "POST" {
 			r.SetBodyString("hello=world")
+			if o.Expect100 {
+				r.SetHeader("Expect", "100-continue")
+			}
 		}
 		for i := 0; i < cs.Pre; i++ {
 			// earlier exchanges of the same client (same connection when the response allowed it)
